@@ -86,3 +86,19 @@ Proof.
       rewrite ten_pow_ok by lia. cbn [bind]. unfold checked.
       destruct (in_range I128 _); split; reflexivity.
 Qed.
+
+(* ---- the same, phrased on observable outcomes (what the check evaluates) ---- *)
+From FP Require Import Out Run.
+
+Lemma dec_eqb_refl d : dec_eqb d d = true.
+Proof. unfold dec_eqb. rewrite !Z.eqb_refl. reflexivity. Qed.
+
+Lemma round_acc pf m d n :
+  wf d = true -> -128 <= n <= 127 ->
+  acc_un m Uround d n (run_un pf m Uround d n) = true /\
+  acc_un m Ucround d n (run_un pf m Ucround d n) = true.
+Proof.
+  intros Hwf Hn. destruct (dec_round_both pf m d n Hwf Hn) as [H1 H2].
+  cbn [acc_un run_un]. rewrite H1, H2. unfold round_sres.
+  destruct (round_spec m d n) as [r|]; cbn; rewrite ?dec_eqb_refl; auto.
+Qed.
